@@ -8,6 +8,9 @@ Line-protocol driver for the C09 model (name → id assignment), see harness/int
   series <shard> <metricId> <tagset> k:v k:v ...
   mseries <shard> <metricId> | tvseries <shard> <tagValueId> | tkseries <shard> <tagKeyId>
   iflushimg <s> <j>                           (real index Flush; crash image taken just before its (j+1)-th kv family commit)
+  mflushfails                                 (the kv commit of the schema family's flush fails)
+  mcompact | icompact <s>                     (level-0 compaction of every family of the metadata / one index store)
+  mdbrace                                     (memdb: two callers of GetOrCreateTimeSeriesIndex for one new metric)
   mflushfail | iflushfail <s>                 (the first dictionary flush that writes fails at its kv commit)
   mprepare | mflush | mflushcrash <k> | iprepare <s> | iflush <s> | iflushcrash <s> <k> | reopen | crash
   krace <nsBucket> <ns> <name>                (two callers, A stopped before createValue)
@@ -124,6 +127,21 @@ def step (nd : Node) (ws : List String) : Node × String :=
   | ["mflushfail"] =>
     let k := nd.metaFlushFailAt
     (nd.metaFlushPrefix k, if k < 5 then "err flush-failed" else "ok")
+  | ["mflushfails"] =>
+    let k := nd.metaFlushFailSchemaAt
+    (nd.metaFlushPrefix k, if k < 5 then "err flush-failed" else "ok")
+  | ["mcompact"] => (nd, "ok")
+  | ["icompact", sh] =>
+    match sh.toNat? with
+    | some sh => if sh < nd.nShards then (nd, "ok") else bad
+    | none => bad
+  | ["mdbrace"] =>
+    -- two callers of GetOrCreateTimeSeriesIndex for one new metric: A stopped before its Store, B started, A released
+    let sched : List (Option Nat) := [none, none, some 0, some 0, some 1, some 1, some 1, some 0, some 1, some 1]
+    let r := mrun cfg.memdbExclusive {} sched
+    (nd, match r.threads with
+      | [.done a, .done b] => if a = b then "same" else "differ"
+      | _ => "stuck")
   | ["iflushfail", sh] =>
     match sh.toNat? with
     | some sh =>
